@@ -33,6 +33,29 @@ class TNOps(TNCtor):
             worst = max(worst, dn.isometry_defect(site_matrix(np.asarray(A), o.kind, mode)))
         return self.check(worst <= ISO_TOL, props, clause, lambda: f'site tensors are not {mode}-isometries: max defect {worst:.3e}')
 
+    def op_scale_H_inplace(self, op):
+        """History: the user rescales one tensor of a Hamiltonian in place (a coupling ramped between calls); the
+        operator stays Hermitian, the array objects stay the same."""
+        o = self.pick(op['sel'], 'mpo', lambda x: x.herm and not any(np.issubdtype(a.dtype, np.integer) for a in x.ref.A))
+        if o is None:
+            return 'skipped'
+        i = int(op['site']) % len(o.ref.A)
+        if not o.ref.A[i].flags.writeable:
+            return 'skipped'
+        siblings = [x for x in self.live() if x is not o and any(np.may_share_memory(a, b) for a in x.ref.A for b in o.ref.A)]
+        dense_before = o.dense.copy()
+        o.ref.A[i] *= op['factor']
+        self.resync(o)
+        for x in siblings:
+            x.traj = None
+            self.resync(x)
+        if '+uniform' not in o.tag and not o.retired:
+            dev = float(np.linalg.norm(o.dense - op['factor'] * dense_before))
+            self.check(dev <= TOL * max(o.scale, float(np.linalg.norm(dense_before)) * abs(op['factor'])), 'C03', 'site_edit_is_local',
+                       lambda: f'mpo ({o.tag}): after scaling site {i} by {op["factor"]} in place the dense form differs from factor*previous by {dev:.3e}')
+        self.probe('hamiltonian_rescaled_in_place')
+        return 'ok'
+
     def transient_extreme(self, o, op):
         """Same object, tensors of extreme but compensating magnitude (exact powers of two); every in-place
         algorithm starts with a QR sweep that re-balances it, so no extreme object stays in the pool."""
@@ -426,6 +449,7 @@ class TNOps(TNCtor):
         if reuse:
             A, q0, q1 = st['A'], st['q0'], st['q1']
             how = op.get('mutate', 'negate')
+            kept = [(x, x.tobytes()) for x in st.get('out', []) if isinstance(x, np.ndarray)]
             if how == 'negate':
                 q0 *= -1
                 q1 *= -1
@@ -438,6 +462,16 @@ class TNOps(TNCtor):
                 perm = np.random.Generator(np.random.PCG64(op['sub'])).permutation(len(q0))
                 q0[:] = q0[perm]
                 A[:] = A[perm, :]
+            elif how == 'refill':
+                # the caller reuses its buffers for new data: new column charges, new entries on the allowed support
+                g_ = np.random.Generator(np.random.PCG64(op['sub']))
+                q1[:] = q0[g_.integers(0, len(q0), size=len(q1))]
+                newA = g_.normal(size=A.shape) + (1j * g_.normal(size=A.shape) if np.iscomplexobj(A) else 0)
+                A[:] = np.where(np.equal.outer(q0, q1), newA, 0)
+            # Observation only (no property speaks about kernel results aliasing kernel arguments, and the unchanged
+            # library itself returns q0[:1], a view of the caller's q0, as intermediate charges in the disjoint branch):
+            if not all(x.tobytes() == b for x, b in kept):
+                self.probe('kernel_result_is_view_of_argument')
             self.probe('kernel_reused_arrays_after_inplace_update')
         else:
             o = self.pick(op['sel'], 'mps', lambda x: all(dn.is_int_1d_array(q) for q in x.ref.qD) and dn.is_int_1d_array(x.ref.qd)
@@ -474,7 +508,8 @@ class TNOps(TNCtor):
             self.check(False, ['C11'] if which == 'qr' else ['C12'], 'raised', f'{which} kernel: {type(exc).__name__}: {exc}')
             self.kernel_state = None
             return 'raised'
-        self.kernel_state = {'which': which, 'A': A, 'q0': q0, 'q1': q1, 'qi': out[2] if which == 'qr' else out[3]}
+        self.kernel_state = {'which': which, 'A': A, 'q0': q0, 'q1': q1, 'qi': out[2] if which == 'qr' else out[3],
+                             'out': [x for x in out if isinstance(x, np.ndarray)]}
         return 'ok'
 
     # ================================ pure arithmetic =======================================
